@@ -24,7 +24,8 @@ class RefUndefined(Exception):
 
 _OPS = {"+": operator.add, "-": operator.sub, "*": operator.mul, "<": operator.lt, ">": operator.gt,
         "==": operator.eq, "!=": operator.ne, "<=": operator.le, ">=": operator.ge, "&": operator.and_,
-        "|": operator.or_, "^": operator.xor}
+        "|": operator.or_, "^": operator.xor, "//": operator.floordiv, "%": operator.mod, "**": operator.pow,
+        "<<": operator.lshift, ">>": operator.rshift}
 _UOPS = {"-": operator.neg, "~": operator.invert, "abs": abs}
 
 Path = Tuple[Tuple[str, int], ...]
